@@ -88,6 +88,7 @@ type Lemma struct {
 	Name      string
 	Params    []SParam
 	Induction string // parameter name, or ""
+	Generalize bool  // induction hypothesis quantified over the other parameters
 	Requires  []SExpr
 	Ensures   []SExpr
 	Reveal    []string
@@ -779,7 +780,9 @@ func parseSpecText(pkg string, lines []string) (sf *SpecFile, err error) {
 			if curL == nil {
 				panic(fmt.Errorf("spec: stray induction"))
 			}
-			curL.Induction = strings.TrimSpace(it.text)
+			f := strings.Fields(it.text)
+			curL.Induction = f[0]
+			curL.Generalize = len(f) > 1 && f[1] == "generalizing"
 		case "expect":
 			if curL == nil {
 				panic(fmt.Errorf("spec: stray expect"))
